@@ -48,14 +48,6 @@ def OkCpt (kind : Kind) (s : K) : Cpt K → Prop
   | .I a b _ => a ≠ b
   | _ => False
 
-/-- where the code as it is (un-patched) agrees with the patched code: constants of a branch
-    relation are only right when the component is seen from its first node, and a current
-    source only when seen from its second node -/
-def SafeAt (kind : Kind) (s : K) (k : Nat) (c : Cpt K) : Prop :=
-  match nodes2 c, curEq kind s c with
-  | some (n1, _), some (_, i0) => if isI c then k ≠ n1 else (k = n1 ∨ i0 = 0)
-  | _, _ => True
-
 theorem incident_iff (k : Nat) (c : Cpt K) (n1 n2 : Nat) (h : nodes2 c = some (n1, n2)) :
     incident k c = true ↔ (n1 = k ∨ n2 = k) := by
   simp [incident, h]
@@ -66,11 +58,11 @@ theorem outflow_not_incident (kind : Kind) (s : K) (x : Ix → K) (k : Nat) (c :
   cases c <;> simp [OkCpt] at hok <;> simp [incident, nodes2] at hinc <;>
     simp [outflow, twoTerm, hinc.1, hinc.2]
 
-/-- patched KCL term = physical current leaving node `k` through the component -/
+/-- KCL term = physical current leaving node `k` through the component -/
 theorem kclTerm_patched (kind : Kind) (s : K) (x : Ix → K) (k : Nat) (c : Cpt K)
     (hok : OkCpt kind s c) (hv : isV c = false) (hinc : incident k c = true)
     (hlaw : ∀ p ∈ laws kind s x c, p.2 = 0) :
-    (kclTerm true kind s k c).eval x = outflow kind s x k c := by
+    (kclTerm kind s k c).eval x = outflow kind s x k c := by
   cases c with
   | R a b r =>
     simp [OkCpt] at hok
@@ -133,38 +125,6 @@ theorem kclTerm_patched (kind : Kind) (s : K) (x : Ix → K) (k : Nat) (c : Cpt 
     · simp [kclTerm, nodes2, curEq, isI, LinForm.eval, lsum, outflow, twoTerm, hok, Ne.symm hok]
     · simp [kclTerm, nodes2, curEq, isI, LinForm.eval, lsum, outflow, twoTerm, hok, Ne.symm hok]
   | _ => simp [OkCpt] at hok
-
-/-- where `SafeAt` holds the code as it is produces the same term as the patched code -/
-theorem kclTerm_asis (kind : Kind) (s : K) (x : Ix → K) (k : Nat) (c : Cpt K)
-    (hok : OkCpt kind s c) (hinc : incident k c = true) (hsafe : SafeAt kind s k c) :
-    (kclTerm false kind s k c).eval x = (kclTerm true kind s k c).eval x := by
-  unfold kclTerm
-  cases hn : nodes2 c with
-  | none => simp
-  | some n12 =>
-    obtain ⟨n1, n2⟩ := n12
-    cases hc : curEq kind s c with
-    | none => simp
-    | some gi =>
-      obtain ⟨g, i0⟩ := gi
-      simp only [SafeAt, hn, hc] at hsafe
-      have hinc' := (incident_iff k c n1 n2 hn).mp hinc
-      have hne : n1 ≠ n2 := by
-        cases c <;> simp [nodes2] at hn <;> simp [OkCpt] at hok <;> (obtain ⟨rfl, rfl⟩ := hn) <;> tauto
-      by_cases hI : isI c = true
-      · simp only [hI, if_true] at hsafe
-        have hk2 : k = n2 := by rcases hinc' with h | h <;> [exact absurd h.symm hsafe; exact h.symm]
-        have : ¬ (k = n1) := hsafe
-        cases c <;> simp [isI] at hI
-        simp [curEq] at hc
-        obtain ⟨rfl, rfl⟩ := hc
-        simp [this, isI, LinForm.eval, lsum]
-      · simp only [hI] at hsafe
-        simp only [Bool.not_eq_true] at hI
-        by_cases hk1 : k = n1
-        · simp [hk1, hI]
-        · have hi0 : i0 = 0 := by rcases hsafe with h | h <;> [exact absurd h hk1; exact h]
-          simp [hk1, hI, hi0, LinForm.eval, lsum]; ring
 
 /-- sum of the outflows over the netlist = sum over the incident components -/
 theorem kcl_sum_filter (kind : Kind) (s : K) (x : Ix → K) (k : Nat) (cs : List (Cpt K))
@@ -271,12 +231,6 @@ def MeshOk (kind : Kind) (s : K) : Cpt K → Prop
   | .V a b _ _ => a ≠ b
   | _ => False
 
-/-- the component carries no initial-condition term in this analysis kind -/
-def NoIC (kind : Kind) (s : K) (c : Cpt K) : Prop :=
-  match volEq kind s c with
-  | some (_, v0) => isV c = true ∨ v0 = 0
-  | none => True
-
 /-- current through a passive component from its first to its second node, by the spec -/
 def through (kind : Kind) (s : K) (x : Ix → K) : Cpt K → K
   | .R a b r => vd x a b / r
@@ -355,15 +309,14 @@ theorem find_joins (g : List (Edge K)) (p q : GNode) (h : hasEdge g p q = true) 
 
 /-- the contribution of one consecutive pair (a, b) of a loop to the KVL sum is the potential
     rise  φ(b) − φ(a)  once the mesh currents carry the component's actual current -/
-theorem meshTerm_eval (pe pi : Bool) (kind : Kind) (s : K) (cs : List (Cpt K)) (g : List (Edge K))
+theorem meshTerm_eval (pe : Bool) (kind : Kind) (s : K) (cs : List (Cpt K)) (g : List (Edge K))
     (hg : ∀ e ∈ g, EdgeOK cs e) (loops : List (List GNode)) (x : Ix → K) (im : Nat → K)
     (hlaws : Laws kind s cs x) (hok : ∀ c ∈ cs, MeshOk kind s c)
     (hpe : pe = false → ∀ e ∈ g, ∃ n, e.b = .real n)
-    (hpi : pi = false → ∀ c ∈ cs, NoIC kind s c)
     (ab : GNode × GNode) (hadj : hasEdge g ab.1 ab.2 = true)
     (hcons : ∀ idx c, component g ab.1 ab.2 = some (idx, c) → isV c = false →
         meshCurrent pe g loops idx c im = -(through kind s x c))
-    (t : MeshForm K) (ht : meshTerm pe pi kind s g loops ab = some t) :
+    (t : MeshForm K) (ht : meshTerm pe kind s g loops ab = some t) :
     t.eval im = gvolt x ab.2 - gvolt x ab.1 := by
   obtain ⟨a, b⟩ := ab
   simp only at hadj hcons ⊢
@@ -394,9 +347,7 @@ theorem meshTerm_eval (pe pi : Bool) (kind : Kind) (s : K) (cs : List (Cpt K)) (
     -- the value v of the code before the flip evaluates to V(n0) − V(n1)
     have hv : ∃ z v0, volEq kind s c = some (z, v0) ∧
         ((if isV c then (⟨[], v0⟩ : MeshForm K)
-          else if pi then
-            ⟨scaleCoeffs (-z) (accCoeffs (if pe then accEdge g loops idx n0 else accNames loops n0 n1)), v0⟩
-          else ⟨scaleCoeffs (-z) (accCoeffs (if pe then accEdge g loops idx n0 else accNames loops n0 n1)), -v0⟩).eval im
+          else ⟨scaleCoeffs (-z) (accCoeffs (if pe then accEdge g loops idx n0 else accNames loops n0 n1)), v0⟩).eval im
           = vd x n0 n1) := by
       cases hV : isV c with
       | true =>
@@ -411,15 +362,8 @@ theorem meshTerm_eval (pe pi : Bool) (kind : Kind) (s : K) (cs : List (Cpt K)) (
         refine ⟨z, v0, hvol, ?_⟩
         have hcur := hcons idx c rfl hV
         simp only [meshCurrent, hn] at hcur
-        cases pi with
-        | true =>
-          simp only [if_true, Bool.false_eq_true, if_false]
-          rw [meshEval_scale, hcur, ← hz]; ring
-        | false =>
-          have hnoic := hpi rfl c hcs
-          simp only [NoIC, hvol, hV, Bool.false_eq_true, false_or] at hnoic
-          simp only [Bool.false_eq_true, if_false]
-          rw [meshEval_scale, hcur, ← hz, hnoic]; ring
+        simp only [Bool.false_eq_true, if_false]
+        rw [meshEval_scale, hcur, ← hz]; ring
     obtain ⟨z, v0, hvol, hval⟩ := hv
     simp only [hn, hvol, hI, Bool.false_eq_true, if_false, Option.some.injEq] at ht
     subst ht
@@ -466,11 +410,11 @@ theorem meshTerm_eval (pe pi : Bool) (kind : Kind) (s : K) (cs : List (Cpt K)) (
       exact hval
 
 /-- the whole KVL sum of a loop -/
-theorem meshEq_eval (pe pi : Bool) (kind : Kind) (s : K) (g : List (Edge K)) (loops : List (List GNode))
+theorem meshEq_eval (pe : Bool) (kind : Kind) (s : K) (g : List (Edge K)) (loops : List (List GNode))
     (x : Ix → K) (im : Nat → K) (ps : List (GNode × GNode))
-    (hterm : ∀ ab ∈ ps, ∀ t, meshTerm pe pi kind s g loops ab = some t → t.eval im = gvolt x ab.2 - gvolt x ab.1)
+    (hterm : ∀ ab ∈ ps, ∀ t, meshTerm pe kind s g loops ab = some t → t.eval im = gvolt x ab.2 - gvolt x ab.1)
     (f : MeshForm K)
-    (hf : ps.foldr (fun ab acc => match meshTerm pe pi kind s g loops ab, acc with
+    (hf : ps.foldr (fun ab acc => match meshTerm pe kind s g loops ab, acc with
         | some t, some r => some (t.add r) | _, _ => none) (some ⟨[], 0⟩) = some f) :
     f.eval im = lsum (ps.map (fun pq => gvolt x pq.2 - gvolt x pq.1)) := by
   induction ps generalizing f with
@@ -480,11 +424,11 @@ theorem meshEq_eval (pe pi : Bool) (kind : Kind) (s : K) (g : List (Edge K)) (lo
     simp [MeshForm.eval, lsum]
   | cons ab rest ih =>
     simp only [List.foldr_cons] at hf
-    cases h1 : meshTerm pe pi kind s g loops ab with
+    cases h1 : meshTerm pe kind s g loops ab with
     | none => rw [h1] at hf; simp at hf
     | some t =>
       rw [h1] at hf
-      cases h2 : rest.foldr (fun ab acc => match meshTerm pe pi kind s g loops ab, acc with
+      cases h2 : rest.foldr (fun ab acc => match meshTerm pe kind s g loops ab, acc with
           | some t, some r => some (t.add r) | _, _ => none) (some ⟨[], 0⟩) with
       | none => rw [h2] at hf; simp at hf
       | some r =>
